@@ -1,0 +1,35 @@
+//! Verification hooks (cargo feature `verif_hooks`, off by default).
+//!
+//! Adversary knobs for the STARK prover. `Default` is the honest prover; nothing in here changes
+//! what an honest run computes.
+
+use std::sync::RwLock;
+
+/// Knobs read by `prover::prove_with_commitment`.
+#[derive(Clone, Debug, Default)]
+pub struct StarkProverKnobs {
+    /// Skip the debug-only `check_constraints` call, so that a trace which violates the
+    /// constraints reaches the rest of the protocol also in builds with debug assertions.
+    pub skip_constraint_check: bool,
+    /// Cut the quotient polynomials to the committed length instead of insisting that the
+    /// discarded coefficients are zero.
+    pub lenient_truncation: bool,
+    /// `(auxiliary polynomial index, row, canonical value)` edits applied to the auxiliary
+    /// (lookup helper / running sum / cross-table) columns before they are committed.
+    pub aux_edits: Vec<(usize, usize, u64)>,
+}
+
+static KNOBS: RwLock<Option<StarkProverKnobs>> = RwLock::new(None);
+
+/// Installs `knobs` process-wide (pass `StarkProverKnobs::default()` to go back to honest).
+pub fn set_knobs(knobs: StarkProverKnobs) {
+    *KNOBS.write().unwrap_or_else(|e| e.into_inner()) = Some(knobs);
+}
+
+pub(crate) fn with_knobs<R>(f: impl FnOnce(&StarkProverKnobs) -> R) -> Option<R> {
+    KNOBS
+        .read()
+        .unwrap_or_else(|e| e.into_inner())
+        .as_ref()
+        .map(f)
+}
